@@ -103,7 +103,10 @@ struct World {
     std::vector<unsigned> genKeyedAt; ///< per generation: clock when its key was set (0 = not yet)
     std::vector<ReaderRec> readers;
     std::vector<DeleteRec> deletes;
-    std::vector<int> suffixOfStaleGen; ///< per slice: the stale generation whose chain suffix it became part of a fresh edition, or -1
+    /// per slice: -1, or the stale generation whose chain suffix (this slice included) was spliced
+    /// into a fresh edition by closeForUpdating() since the slice was last handed out: from then
+    /// on the slice belongs to two (or more) independently locked anchors -- the known finding
+    std::vector<int> suffixOfStaleGen;
     Stats st;
     alignas(64) unsigned char fakeEntry[KeyCount][sizeof(StoreEntry)];
     uint64_t keys[KeyCount][2];
@@ -156,8 +159,10 @@ struct World {
         for (const auto &r : readers)
             for (const auto &c : r.chain)
                 if (c.first == s)
-                    Sched::failRun("slice-reused-while-reader-holds-entry", "slice " + std::to_string(s) + " handed to P" + std::to_string(me) + " while P" + std::to_string(r.proc) + " reads anchor " + std::to_string(r.fileno));
+                    Sched::failRun(suffixOfStaleGen[s] >= 0 ? "update-shared-slice-freed-while-reader-holds-entry" : "slice-reused-while-reader-holds-entry",
+                                   "slice " + std::to_string(s) + " handed to P" + std::to_string(me) + " while P" + std::to_string(r.proc) + " reads anchor " + std::to_string(r.fileno) + " generation " + std::to_string(r.gen));
         sliceTag[s] = nextTag++;
+        suffixOfStaleGen[s] = -1;
         return s;
     }
 
@@ -167,10 +172,9 @@ struct World {
         for (const auto &r : readers)
             for (const auto &c : r.chain)
                 if (c.first == s)
-                    Sched::failRun(suffixOfStaleGen[s] == r.gen ? "stale-reader-suffix-freed-after-header-update" : "slice-freed-while-reader-holds-entry",
+                    Sched::failRun(suffixOfStaleGen[s] >= 0 ? "update-shared-slice-freed-while-reader-holds-entry" : "slice-freed-while-reader-holds-entry",
                                    "slice " + std::to_string(s) + " freed while P" + std::to_string(r.proc) + " reads anchor " + std::to_string(r.fileno) + " generation " + std::to_string(r.gen));
-        sliceTag[s] = 0;
-        suffixOfStaleGen[s] = -1;
+        sliceTag[s] = 0; // suffixOfStaleGen[s] is kept until the slice is handed out again
         pool.push_back(s);
     }
 
